@@ -10,9 +10,15 @@ Lemma exempt_hevm : mem_addr hevm_address prank_exempt = true.
 Proof. vm_compute. reflexivity. Qed.
 Lemma exempt_svm : mem_addr svm_address prank_exempt = true.
 Proof. vm_compute. reflexivity. Qed.
+Lemma exempt_console : mem_addr console_address prank_exempt = true.
+Proof. vm_compute. reflexivity. Qed.
 Lemma exempt_zero : mem_addr 0 prank_exempt = false.
 Proof. vm_compute. reflexivity. Qed.
 Lemma exempt_sub_cheat : forallb (fun a => mem_addr a cheatcode_addresses) prank_exempt = true.
+Proof. vm_compute. reflexivity. Qed.
+
+(* every address SEVM.call treats as a cheatcode address is exempted by Prank.lookup *)
+Lemma cheat_sub_exempt : forallb (fun a => mem_addr a prank_exempt) cheatcode_addresses = true.
 Proof. vm_compute. reflexivity. Qed.
 
 Lemma mem_addr_In : forall a l, mem_addr a l = true <-> In a l.
@@ -28,6 +34,28 @@ Proof.
   exfalso. apply Hn. apply mem_addr_In in E.
   pose proof exempt_sub_cheat as Hs. rewrite forallb_forall in Hs.
   apply mem_addr_In. apply Hs. exact E.
+Qed.
+
+Lemma cheat_exempt : forall a, In a cheatcode_addresses -> mem_addr a prank_exempt = true.
+Proof.
+  intros a Hin. pose proof cheat_sub_exempt as Hs. rewrite forallb_forall in Hs. apply Hs. exact Hin.
+Qed.
+
+(* the callee of every cheatcode-call op is one of sevm.CHEATCODE_ADDRESSES ... *)
+Lemma cheat_addr_is_cheat : forall c, In (cheat_addr c) cheatcode_addresses.
+Proof. intros c. apply mem_addr_In. destruct c; vm_compute; reflexivity. Qed.
+
+(* ... hence exempted *)
+Lemma cheat_addr_exempt : forall c, mem_addr (cheat_addr c) prank_exempt = true.
+Proof. intros c. apply cheat_exempt. apply cheat_addr_is_cheat. Qed.
+
+(* Prank.lookup's exemption list and sevm.CHEATCODE_ADDRESSES are the same set *)
+Theorem prank_exempt_exact : forall a, In a prank_exempt <-> In a cheatcode_addresses.
+Proof.
+  intros a. split; intros H.
+  - pose proof exempt_sub_cheat as Hs. rewrite forallb_forall in Hs.
+    apply mem_addr_In. apply Hs. exact H.
+  - apply mem_addr_In. apply cheat_exempt. exact H.
 Qed.
 
 (* ---------------------------------------------------------------- the abstraction *)
@@ -140,9 +168,9 @@ Proof.
 Qed.
 
 Lemma step_sim : forall ss ms o,
-  Forall2 frel ss ms -> not_console o -> target_ok o -> res_rel (s_step ss o) (m_step ms o).
+  Forall2 frel ss ms -> target_ok o -> res_rel (s_step ss o) (m_step ms o).
 Proof.
-  intros ss ms o HF Hnc Hto.
+  intros ss ms o HF Hto.
   destruct HF as [|sf mf srest mrest Hf Hr].
   - destruct o; cbn; repeat split; auto using frel_fresh.
   - destruct o as [s|s og|s|s og| |c|k a|a| |t sd og]; cbn [s_step m_step].
@@ -152,9 +180,7 @@ Proof.
     + apply set_prank_sim; assumption.
     + rewrite resolve_exempt by exact exempt_hevm. cbn. split; [reflexivity|].
       constructor; [|exact Hr]. destruct Hf as (Ht & Hc & Ho & Hp). repeat split; cbn; auto.
-    + assert (He : mem_addr (cheat_addr c) prank_exempt = true).
-      { destruct c; [exact exempt_hevm | exact exempt_svm | contradiction]. }
-      rewrite resolve_exempt by exact He. cbn. split; [reflexivity|].
+    + rewrite resolve_exempt by apply cheat_addr_exempt. cbn. split; [reflexivity|].
       constructor; [|exact Hr]. destruct Hf as (Ht & Hc & Ho & Hp). repeat split; cbn; auto.
     + cbn in Hto. apply not_cheat_not_exempt in Hto.
       destruct (resolve_consume sf mf a Hf Hto) as [H1 H2].
@@ -170,12 +196,12 @@ Proof.
 Qed.
 
 Lemma run_sim : forall ops ss ms,
-  Forall2 frel ss ms -> Forall not_console ops -> Forall target_ok ops ->
+  Forall2 frel ss ms -> Forall target_ok ops ->
   m_run ms ops = s_run ss ops.
 Proof.
-  induction ops as [|o r IH]; intros ss ms HF Hnc Hto; [reflexivity|].
-  inversion Hnc as [|? ? Hnc1 Hnc2]; subst. inversion Hto as [|? ? Hto1 Hto2]; subst.
-  pose proof (step_sim ss ms o HF Hnc1 Hto1) as Hs. cbn [m_run s_run].
+  induction ops as [|o r IH]; intros ss ms HF Hto; [reflexivity|].
+  inversion Hto as [|? ? Hto1 Hto2]; subst.
+  pose proof (step_sim ss ms o HF Hto1) as Hs. cbn [m_run s_run].
   destruct (s_step ss o) as [|ss' out]; destruct (m_step ms o) as [|ms' out']; cbn in Hs; try contradiction.
   - reflexivity.
   - destruct Hs as [-> HF']. f_equal. apply IH; assumption.
@@ -183,7 +209,7 @@ Qed.
 
 (* the sender/origin every call observes, for every finite op sequence *)
 Theorem prank_trace : forall this sender origin ops,
-  Forall not_console ops -> Forall target_ok ops ->
+  Forall target_ok ops ->
   m_run [m_fresh this sender origin] ops = s_run [s_fresh this sender origin] ops.
 Proof.
   intros. apply run_sim; auto. constructor; [apply frel_fresh|constructor].
@@ -191,34 +217,24 @@ Qed.
 
 (* the same from any reachable pair of states, and from the empty state *)
 Theorem prank_trace_from_empty : forall ops,
-  Forall not_console ops -> Forall target_ok ops -> m_run [] ops = s_run [] ops.
+  Forall target_ok ops -> m_run [] ops = s_run [] ops.
 Proof. intros. apply run_sim; auto. Qed.
 
-(* the console defect: console.log between vm.prank and the call consumes the prank *)
-Theorem prank_trace_console_witness :
-  let ops := [OPrank 7; OCheat CConsole; OCall KCall 9] in
-  Forall target_ok ops /\
-  m_run [m_fresh 1 2 3] ops = [Obs 1 3] /\ s_run [s_fresh 1 2 3] ops = [Obs 7 3].
+(* cheatcode calls -- vm.*, svm.*, console.log alike -- are invisible to pranks: a call to any
+   cheatcode address leaves every frame (its prank included) as it was and enters no frame ... *)
+Lemma cheat_step_id : forall st c, m_step st (OCheat c) = MOk st [].
 Proof.
-  cbv zeta. split; [|split; vm_compute; reflexivity].
-  repeat constructor. cbn. vm_compute. intuition discriminate.
+  intros [|f rest] c; cbn [m_step]; [reflexivity|].
+  rewrite resolve_exempt by apply cheat_addr_exempt. reflexivity.
 Qed.
 
-Theorem prank_trace_refuted :
-  exists this sender origin ops,
-    Forall target_ok ops /\
-    m_run [m_fresh this sender origin] ops <> s_run [s_fresh this sender origin] ops.
+(* ... so deleting (or inserting) one anywhere in any op sequence changes no observed sender/origin *)
+Theorem cheat_call_transparent : forall pre c post st,
+  m_run st (pre ++ OCheat c :: post) = m_run st (pre ++ post).
 Proof.
-  exists 1, 2, 3, [OPrank 7; OCheat CConsole; OCall KCall 9].
-  destruct prank_trace_console_witness as (H1 & H2 & H3).
-  split; [exact H1|]. rewrite H2, H3. discriminate.
-Qed.
-
-Theorem prank_exempt_incomplete : exists a, In a cheatcode_addresses /\ ~ In a prank_exempt.
-Proof.
-  exists console_address. split.
-  - apply mem_addr_In. vm_compute. reflexivity.
-  - intros H. apply mem_addr_In in H. vm_compute in H. discriminate.
+  induction pre as [|o r IH]; intros c post st; cbn [app m_run].
+  - rewrite cheat_step_id. reflexivity.
+  - destruct (m_step st o) as [|st' out]; [reflexivity|]. f_equal. apply IH.
 Qed.
 
 (* ---------------------------------------------------------------- reject *)
@@ -264,16 +280,16 @@ Fixpoint s_after (st : list sframe) (ops : list op) : option (list sframe) :=
   | o :: r => match s_step st o with SErr => None | SOk st' _ => s_after st' r end
   end.
 
-Lemma after_sim : forall ops ss ms, Forall2 frel ss ms -> Forall not_console ops -> Forall target_ok ops ->
+Lemma after_sim : forall ops ss ms, Forall2 frel ss ms -> Forall target_ok ops ->
   match s_after ss ops, m_after ms ops with
   | Some ss', Some ms' => Forall2 frel ss' ms'
   | None, None => True
   | _, _ => False
   end.
 Proof.
-  induction ops as [|o r IH]; intros ss ms HF Hnc Hto; cbn; [exact HF|].
-  inversion Hnc; subst. inversion Hto; subst.
-  pose proof (step_sim ss ms o HF H1 H3) as Hs.
+  induction ops as [|o r IH]; intros ss ms HF Hto; cbn; [exact HF|].
+  inversion Hto as [|? ? Hto1 Hto2]; subst.
+  pose proof (step_sim ss ms o HF Hto1) as Hs.
   destruct (s_step ss o); destruct (m_step ms o); cbn in Hs; try contradiction; auto.
   destruct Hs. apply IH; assumption.
 Qed.
@@ -289,13 +305,13 @@ Qed.
 (* C14_prank_reject, history form: after any accepted prefix, if Foundry's reading says a
    prank is in force for the current frame, a further prank/startPrank is an error *)
 Theorem prank_reject : forall this sender origin pre o post sf srest,
-  Forall not_console pre -> Forall target_ok pre ->
+  Forall target_ok pre ->
   s_after [s_fresh this sender origin] pre = Some (sf :: srest) ->
   in_effect (s_hist sf) false <> None -> is_prank_op o = true ->
   m_run [m_fresh this sender origin] (pre ++ o :: post) =
   m_run [m_fresh this sender origin] pre ++ [ObsError].
 Proof.
-  intros this sender origin pre o post sf srest Hnc Hto Hs Hin Ho.
+  intros this sender origin pre o post sf srest Hto Hs Hin Ho.
   pose proof (after_sim pre [s_fresh this sender origin] [m_fresh this sender origin]) as Ha.
   rewrite Hs in Ha.
   destruct (m_after [m_fresh this sender origin] pre) as [ms'|] eqn:Em.
@@ -310,12 +326,12 @@ Qed.
 
 (* and it is accepted otherwise *)
 Theorem prank_accept : forall this sender origin pre o sf srest,
-  Forall not_console pre -> Forall target_ok pre ->
+  Forall target_ok pre ->
   s_after [s_fresh this sender origin] pre = Some (sf :: srest) ->
   in_effect (s_hist sf) false = None -> is_prank_op o = true ->
   m_after [m_fresh this sender origin] (pre ++ [o]) <> None.
 Proof.
-  intros this sender origin pre o sf srest Hnc Hto Hs Hin Ho.
+  intros this sender origin pre o sf srest Hto Hs Hin Ho.
   pose proof (after_sim pre [s_fresh this sender origin] [m_fresh this sender origin]) as Ha.
   rewrite Hs in Ha.
   destruct (m_after [m_fresh this sender origin] pre) as [ms'|] eqn:Em.
